@@ -1,3 +1,4 @@
 //! Shared helpers for the hipstr verification harness.
+pub mod alloc;
 pub mod extract;
 pub mod util;
